@@ -5,6 +5,7 @@ the output is a well-formed token.
 import CBV.Lemmas.C06Num
 import Mathlib.Tactic.FieldSimp
 import Mathlib.Tactic.Positivity
+import CBV.Gen.TC05
 
 namespace CBV.C06
 
